@@ -145,7 +145,8 @@ def sub_cases(draw):
     def net(pool):
         lines = []
         for nid in draw(st.lists(st.sampled_from(pool), min_size=0, max_size=3, unique=True)):
-            lines.append(f"{nid};255;0;0;17;2.0")
+            # the version the NODE reports need not be the gateway's (older sketches, an empty or unusable string)
+            lines.append(f"{nid};255;0;0;17;{draw(st.sampled_from(['2.0', '2.0', '1.4', '1.5', '1.5.1', '2.2', '2.3.2', '', 'x']))}")
             for cid in draw(st.lists(st.integers(0, 4), min_size=0, max_size=3, unique=True)):
                 # every presentation type of the version - also the two node types presented on an ordinary child
                 # (their payload has to be a version string)
@@ -311,9 +312,12 @@ def check_subs(case, stats=None):
             gw0, _ = make_gateway(case, version, path)
             gw0.start_persistence()
             for line in case["restored"]:
-                gw0.tasks.add_job(gw0.logic, line)
-                while gw0.tasks.queue:
-                    gw0.tasks.transport.send(gw0.tasks.run_job())
+                try:
+                    gw0.tasks.add_job(gw0.logic, line)
+                    while gw0.tasks.queue:
+                        gw0.tasks.transport.send(gw0.tasks.run_job())
+                except Exception as exc:  # pylint: disable=broad-except
+                    raise Violation(f"pump_raises.{type(exc).__name__}", case, f"processing {line!r} (first run, before the restart) raised {exc!r}") from exc
             gw0.stop()
         use_persistence = bool(case["restored"]) or case.get("persistence", True)
         gw, rec = make_gateway(case, version, path if use_persistence else None)
